@@ -4,14 +4,14 @@ GENERATORS = ['gen_codepage', 'gen_comp', 'gen_fonts', 'gen_sixel']
 COQ_TARGETS = ['Props/C12.vo', 'Run/RunC12.vo']
 PROPS_MODULE = 'Props.C12'
 THEOREMS = ['optimize_preserves_render', 'optimize_size', 'optimize_total', 'optimize_changes_only_invisible',
-            'document_render_preserved', 'builtin_fonts_ok', 'font_table_ok']
+            'document_render_preserved', 'builtin_fonts_ok', 'font_table_ok', 'flat_layer_get_char', 'composite_cells_wf']
 SWEEP_LEMMAS = ['ColorOptProofs.row_sweep (9 widths x 256 row bytes: popcount / bit-column facts)',
                 'Props.C12.builtin_fonts_ok (font_ok_b over every glyph of the 60 built-in fonts regenerated from data/fonts)']
 TRUSTED = ['Coq 8.16.1 kernel + vm_compute; no axioms (Print Assumptions: closed)',
            'translator/gen_fonts.py: parser of the fonts![]/sauce_fonts![] tables and python re-implementation of BitFont::from_bytes (PSF1/PSF2/raw); every generated glyph is compared with the real loader on every run (stage C, exhaustive)',
            'translator/gen_codepage.py (attribute flag constants), gen_comp.py (TRANSPARENT_COLOR), gen_sixel.py (DOS_DEFAULT_PALETTE)',
            'hand model of ColorOptimizer::optimize / get_shape / render_to_rgba (character part) / Palette::get_rgb, tied by differential runs (optimised cells cell-exact, rendered RGBA byte-exact)',
-           'reflat: what Buffer::get_char returns for the single opaque layer built by flat_clone (proved for the composite model in property C13; here tied by the byte-exact render comparison)']
+           'reflat / wf_cell are proved against the compositing model of property C13 (flat_layer_get_char, composite_cells_wf) and additionally tied by the byte-exact render comparison']
 UNMODELLED = ['sixel layers (flat_clone drops them; outside the quantifier)', 'cells with TextAttribute::TRANSPARENT_COLOR (half-block compositing is property C13)',
               'the pixel array layout of render_to_rgba is modelled as a grid of per-cell blocks; overlapping writes cannot occur because blocks are clipped to font 0\'s cell size']
 ASSUMPTIONS = ['fonts satisfy fonts_ok (width 1..8, glyph rows = height, no bits outside the width, blank space glyph if present): proved for all built-in fonts, a hypothesis for user-loaded fonts',
